@@ -9,7 +9,7 @@
 (* navigation step applied to it is a type mismatch naming its Go type.         *)
 EXTENDS GenCommon
 CONSTANTS MaxLen, Templates,   \* Templates: "few" | "all"
-          TypeSet             \* "all" | "six"
+          TypeSet             \* "all" | "six" | "containers" (typed maps and slices: what a sloppy "is it an array?" test would navigate)
 
 \* Go types of the harness table usable as leaves (14 and 19 are typed nil containers: JSON-typed)
 LeafTypes == {0, 1, 2, 3, 4, 5, 6, 7, 8, 9, 10, 11, 12, 13, 15, 16, 17, 18, 20, 21}
@@ -35,7 +35,7 @@ FSeqs == { <<FF(Fn_f1)>>, <<AF(Fn_g1)>>, <<FF(Fn_fid), AF(Fn_g2)>> }
 
 VARIABLES ty, doc, steps, funcs, n
 vars == <<ty, doc, steps, funcs, n>>
-Init == ty \in (IF TypeSet = "all" THEN LeafTypes ELSE {0, 1, 6, 13, 15, 21}) /\ doc = Null /\ steps = <<>> /\ funcs = <<>> /\ n = 0
+Init == ty \in (IF TypeSet = "all" THEN LeafTypes ELSE IF TypeSet = "containers" THEN {3, 6, 7} ELSE {0, 1, 6, 13, 15, 21}) /\ doc = Null /\ steps = <<>> /\ funcs = <<>> /\ n = 0
 Next == \/ doc = Null /\ doc' \in DocsOf(ty) /\ UNCHANGED <<ty, steps, funcs, n>>
         \/ /\ doc # Null /\ funcs = <<>> /\ UNCHANGED <<ty, doc>>
            /\ \/ /\ n < MaxLen /\ n' = n + 1 /\ UNCHANGED funcs
